@@ -75,6 +75,59 @@ def indexPair (offG : Nat) (tG : TMap) (offL : Nat) (tL : TMap) (size : Nat) : T
   resized (struct [(offG, 1, tG), (offL, 1, tL)]) size
 end Types
 
+/-! ### R4: the construction code of a datatype as data.  `tr_c07.py` executes the straight-line block
+`if (type == MPI_DATATYPE_NULL) { … }` of every `MPITraits<…>::getType()` symbolically (declarations, `MPI_Get_address`
+pairs / `offsetof`, `MPI_Type_contiguous / create_struct / create_resized / commit / free`) and emits the expression that
+the returned handle denotes; `eval` gives it the meaning MPI defines, for any template arguments (`Env`). -/
+namespace TyProg
+/-- count / size expressions that occur in the construction code -/
+inductive Cnt where
+  | lit (n : Nat)                 -- integer literal
+  | tparam (i : Nat)              -- non-type template parameter number `i` (`n` of `FieldVector<K,n>`)
+  | sizeofSelf                    -- `sizeof` of the type the specialisation is for
+  | sizeofParam (i : Nat)         -- `sizeof` of template parameter `i`
+  | selfConst (name : String)     -- static constant of the type (`bigunsignedint<k>::n`)
+deriving Repr, DecidableEq
+
+inductive Expr where
+  | param (i : Nat)               -- `MPITraits<$i>::getType()`
+  | named (cpp : String)          -- `MPITraits<concrete or nested type>::getType()` / a predefined handle (`MPI_BYTE`)
+  | contig (c : Cnt) (old : Expr) -- `MPI_Type_contiguous`
+  | snil                          -- `MPI_Type_create_struct`: no (more) members
+  | scons (member : String) (len : Nat) (t : Expr) (rest : Expr)   -- member at the displacement of `member`
+  | resized (old : Expr) (extent : Cnt)                             -- `MPI_Type_create_resized(old, 0, extent)`
+deriving Repr, DecidableEq
+
+/-- the template arguments and the object layout: everything the construction code reads from the instantiation -/
+structure Env where
+  param : Nat → TMap
+  named : String → TMap
+  cnt : Cnt → Nat
+  off : String → Nat
+
+def eval (env : Env) : Expr → TMap
+  | .param i => env.param i
+  | .named s => env.named s
+  | .contig c t => TMap.contiguous (env.cnt c) (eval env t)
+  | .snil => ⟨[], 0⟩
+  | .scons m len t rest =>
+      ⟨(TMap.contiguous len (eval env t)).blocks.map (TMap.shift (env.off m)) ++ (eval env rest).blocks,
+       max (env.off m + len * (eval env t).extent) (eval env rest).extent⟩
+  | .resized t e => TMap.resized (eval env t) (env.cnt e)
+
+/-- a list of struct members as the `scons` chain the translator emits -/
+def ofMembers : List (String × Nat × Expr) → Expr
+  | [] => .snil
+  | (m, len, t) :: ms => .scons m len t (ofMembers ms)
+/-- an instantiation at cell level: typemaps of the (at most two) type arguments, of the one named type, the one count,
+`sizeof`, member offsets -/
+def cellEnv (p1 p2 nm : TMap) (n size : Nat) (offs : List (String × Nat)) : Env where
+  param i := if i = 1 then p1 else p2
+  named _ := nm
+  cnt c := match c with | .sizeofSelf => size | .lit k => k | _ => n
+  off m := ((offs.find? (·.1 == m)).map (·.2)).getD 0
+end TyProg
+
 /-- overwrite: what is at a destination position after a cell `s` (if it exists) was copied onto `d` (if it exists) -/
 def ovw {α} (s d : Option α) : Option α :=
   match s with
@@ -706,5 +759,190 @@ def opUses (ty fn : String) : List Reg.Use :=
   let named := fn == "sum" || fn == "prod" || fn == "min" || fn == "max"
   if named && isIntrinsicTy ty then []
   else [⟨"Generic_MPI_Op<$1,$2,$3>", [("1", cppType ty), ("2", functorType ty fn), ("3", "void")]⟩]
+
+/-! ## R4: the wrapper layer `Communication<MPI_Comm>` as data
+
+`tr_c07.py` executes every member function body of `Communication<MPI_Comm>` symbolically (MPIData views of the
+parameters, `MPIFuture` construction, local `int`s, the one MPI call / the delegation to another overload) and emits one
+`Row` per overload: which MPI function is called with which buffer, count, datatype, root, operation.  Parameters and
+template parameters are numbered by position (renaming is harmless), the factors of a product are sorted. -/
+namespace Wrap
+inductive Atom where
+  | isRoot                 -- `(me==root)`
+  | lit (n : Nat)
+  | par (p : Nat)          -- `int` parameter number `p`
+  | procs
+  | sizeOf (p : Nat)       -- `getMPIData(parameter p).size()`
+deriving Repr, DecidableEq
+/-- `(num₁ * num₂ * …) / den` in C's integer arithmetic -/
+structure CExpr where
+  num : List Atom
+  den : List Atom
+deriving Repr, DecidableEq
+inductive Elem where
+  | named (t : String)     -- `Generic_MPI_Op<t, F>`
+  | elemOf (p : Nat)       -- `Generic_MPI_Op<decltype(getMPIData(parameter p))::element_type, F>`
+deriving Repr, DecidableEq
+inductive Arg where
+  | buf (p : Nat)          -- pointer to the elements of parameter `p` (0 = a local temporary)
+  | inPlace
+  | cnt (e : CExpr)
+  | arr (p : Nat)          -- `int*` parameter passed through
+  | tyT (t : String)       -- `MPITraits<t>::getType()`
+  | tyOf (p : Nat)         -- `getMPIData(parameter p).type()`
+  | root | peer | tag | comm | req | status
+  | op (e : Elem) (f : String)
+deriving Repr, DecidableEq
+inductive Body where
+  | call (fn : String) (args : List Arg)
+  | delegate (functor : String) (args : List Arg)           -- `allreduce<functor>(args)`
+  | delegateCopyBack (functor : String) (args : List Arg)   -- into a temporary, then `std::copy` back
+  | probeCountResizeRecv (p : Nat)                          -- `MPI_Mprobe; MPI_Get_count; resize; MPI_Mrecv` on parameter `p`
+deriving Repr, DecidableEq
+inductive Guard where
+  | none
+  | throwIfEmpty (p : Nat)
+deriving Repr, DecidableEq
+structure Row where
+  name : String
+  body : Body
+  ptrs : List (Nat × String)     -- pointer / reference parameters and their element type
+  same : List (Nat × Nat)        -- parameters asserted to have the same datatype (`assert(a.type() == b.type())`)
+  guard : Guard
+deriving Repr, DecidableEq
+
+structure CEnv where
+  par : Nat → Nat
+  sizeOf : Nat → Nat
+  me : Nat
+  root : Nat
+  procs : Nat
+
+def Atom.eval (env : CEnv) : Atom → Nat
+  | .isRoot => if env.me = env.root then 1 else 0
+  | .lit n => n
+  | .par p => env.par p
+  | .procs => env.procs
+  | .sizeOf p => env.sizeOf p
+def prodOf (env : CEnv) (as : List Atom) : Nat := as.foldr (fun a acc => a.eval env * acc) 1
+def CExpr.eval (env : CEnv) (e : CExpr) : Nat := prodOf env e.num / prodOf env e.den
+
+/-- argument roles of the MPI functions used (MPI 3.1 §3.2, §3.7, §5.4–5.9, §5.12) -/
+inductive Role where
+  | buf | count | type | counts | displs | root | peer | tag | comm | req | status | op
+deriving Repr, DecidableEq
+
+def signature : String → Option (List Role)
+  | "MPI_Send" => some [.buf, .count, .type, .peer, .tag, .comm]
+  | "MPI_Isend" => some [.buf, .count, .type, .peer, .tag, .comm, .req]
+  | "MPI_Recv" => some [.buf, .count, .type, .peer, .tag, .comm, .status]
+  | "MPI_Irecv" => some [.buf, .count, .type, .peer, .tag, .comm, .req]
+  | "MPI_Bcast" => some [.buf, .count, .type, .root, .comm]
+  | "MPI_Ibcast" => some [.buf, .count, .type, .root, .comm, .req]
+  | "MPI_Gather" | "MPI_Scatter" => some [.buf, .count, .type, .buf, .count, .type, .root, .comm]
+  | "MPI_Igather" | "MPI_Iscatter" => some [.buf, .count, .type, .buf, .count, .type, .root, .comm, .req]
+  | "MPI_Gatherv" => some [.buf, .count, .type, .buf, .counts, .displs, .type, .root, .comm]
+  | "MPI_Scatterv" => some [.buf, .counts, .displs, .type, .buf, .count, .type, .root, .comm]
+  | "MPI_Allgather" => some [.buf, .count, .type, .buf, .count, .type, .comm]
+  | "MPI_Iallgather" => some [.buf, .count, .type, .buf, .count, .type, .comm, .req]
+  | "MPI_Allgatherv" => some [.buf, .count, .type, .buf, .counts, .displs, .type, .comm]
+  | "MPI_Allreduce" => some [.buf, .buf, .count, .type, .op, .comm]
+  | "MPI_Iallreduce" => some [.buf, .buf, .count, .type, .op, .comm, .req]
+  | "MPI_Barrier" => some [.comm]
+  | "MPI_Ibarrier" => some [.comm, .req]
+  | _ => none
+
+/-- the MPI function a member function of the communication abstraction stands for -/
+def mpiFunction : String → Option String
+  | "send_3" => some "MPI_Send" | "isend_3" => some "MPI_Isend" | "recv_4" => some "MPI_Recv" | "irecv_3" => some "MPI_Irecv"
+  | "broadcast_3" => some "MPI_Bcast" | "ibroadcast_2" => some "MPI_Ibcast"
+  | "gather_4" => some "MPI_Gather" | "igather_3" => some "MPI_Igather" | "gatherv_6" => some "MPI_Gatherv"
+  | "scatter_4" => some "MPI_Scatter" | "iscatter_3" => some "MPI_Iscatter" | "scatterv_6" => some "MPI_Scatterv"
+  | "allgather_3" => some "MPI_Allgather" | "iallgather_2" => some "MPI_Iallgather" | "allgatherv_5" => some "MPI_Allgatherv"
+  | "allreduce_3" | "allreduce_1" => some "MPI_Allreduce" | "iallreduce_2" | "iallreduce_1" => some "MPI_Iallreduce"
+  | "barrier_0" => some "MPI_Barrier" | "ibarrier_0" => some "MPI_Ibarrier"
+  | _ => none
+
+def roleOk : Role → Arg → Bool
+  | .buf, .buf _ | .buf, .inPlace | .count, .cnt _ | .type, .tyT _ | .type, .tyOf _ | .counts, .arr _ | .displs, .arr _
+  | .root, .root | .peer, .peer | .tag, .tag | .comm, .comm | .req, .req | .status, .status | .op, .op _ _ => true
+  | _, _ => false
+
+/-- is the datatype `ty` the one of the elements behind `b`? -/
+def typeMatches (ptrs : List (Nat × String)) (same : List (Nat × Nat)) (b ty : Arg) : Bool :=
+  match b, ty with
+  | .buf p, .tyT t => ptrs.contains (p, t)
+  | .buf p, .tyOf q => p == q || same.contains (p, q) || same.contains (q, p)
+  | .inPlace, _ => true
+  | _, _ => false
+
+def opMatches (ty o : Arg) : Bool :=
+  match ty, o with
+  | .tyT t, .op (.named e) _ => t == e          -- the op is instantiated for the element type the datatype describes
+  | .tyOf p, .op (.elemOf q) _ => p == q
+  | _, _ => false
+
+/-- every buffer is described by the datatype of its own elements and reduced by the op of its own element type -/
+def buffersTyped (ptrs : List (Nat × String)) (same : List (Nat × Nat)) : List Role → List Arg → Bool
+  | .buf :: .count :: .type :: rs, b :: _ :: t :: as => typeMatches ptrs same b t && buffersTyped ptrs same rs as
+  | .buf :: .counts :: .displs :: .type :: rs, b :: _ :: _ :: t :: as => typeMatches ptrs same b t && buffersTyped ptrs same rs as
+  | .buf :: .buf :: .count :: .type :: .op :: rs, s :: r :: _ :: t :: o :: as =>
+      typeMatches ptrs same s t && typeMatches ptrs same r t && opMatches t o && buffersTyped ptrs same rs as
+  | .buf :: _, _ => false
+  | _ :: rs, _ :: as => buffersTyped ptrs same rs as
+  | _, _ => true
+
+def wellFormed (r : Row) : Bool :=
+  match r.body with
+  | .call fn args =>
+    mpiFunction r.name == some fn &&
+    (match signature fn with
+     | some sig => sig.length == args.length && (List.zipWith roleOk sig args).all id && buffersTyped r.ptrs r.same sig args
+     | none => false)
+  | _ => true
+
+def find (tbl : List Row) (name : String) : Option Row := tbl.find? (fun r => r.name == name)
+/-- the `k`-th count argument of the MPI call of wrapper `name` -/
+def countArg (tbl : List Row) (name : String) (k : Nat) : Option CExpr :=
+  match find tbl name with
+  | some ⟨_, .call _ args, _, _, _⟩ => (args.filterMap (fun a => match a with | .cnt e => some e | _ => none))[k]?
+  | _ => none
+
+/-- what the wrappers have to be (read off the documentation of the class and the MPI standard): the specification side of
+`Gen.wrapperTable` -/
+def expected : List Row := [
+  ⟨"send_3", .call "MPI_Send" [.buf 1, .cnt ⟨[.sizeOf 1], []⟩, .tyOf 1, .peer, .tag, .comm], [(1, "$1")], [], .none⟩,
+  ⟨"isend_3", .call "MPI_Isend" [.buf 1, .cnt ⟨[.sizeOf 1], []⟩, .tyOf 1, .peer, .tag, .comm, .req], [], [], .none⟩,
+  ⟨"recv_4", .call "MPI_Recv" [.buf 1, .cnt ⟨[.sizeOf 1], []⟩, .tyOf 1, .peer, .tag, .comm, .status], [], [], .none⟩,
+  ⟨"irecv_3", .call "MPI_Irecv" [.buf 1, .cnt ⟨[.sizeOf 1], []⟩, .tyOf 1, .peer, .tag, .comm, .req], [], [], (.throwIfEmpty 1)⟩,
+  ⟨"broadcast_3", .call "MPI_Bcast" [.buf 1, .cnt ⟨[.par 2], []⟩, .tyT "$1", .root, .comm], [(1, "$1")], [], .none⟩,
+  ⟨"ibroadcast_2", .call "MPI_Ibcast" [.buf 1, .cnt ⟨[.sizeOf 1], []⟩, .tyOf 1, .root, .comm, .req], [], [], .none⟩,
+  ⟨"gather_4", .call "MPI_Gather" [.buf 1, .cnt ⟨[.par 3], []⟩, .tyT "$1", .buf 2, .cnt ⟨[.par 3], []⟩, .tyT "$1", .root, .comm], [(1, "$1"), (2, "$1")], [], .none⟩,
+  ⟨"igather_3", .call "MPI_Igather" [.buf 1, .cnt ⟨[.sizeOf 1], []⟩, .tyOf 1, .buf 2, .cnt ⟨[.isRoot, .sizeOf 1], []⟩, .tyOf 2, .root, .comm, .req], [], [], .none⟩,
+  ⟨"gatherv_6", .call "MPI_Gatherv" [.buf 1, .cnt ⟨[.par 2], []⟩, .tyT "$1", .buf 3, .arr 4, .arr 5, .tyT "$1", .root, .comm], [(1, "$1"), (3, "$1")], [], .none⟩,
+  ⟨"scatter_4", .call "MPI_Scatter" [.buf 1, .cnt ⟨[.par 3], []⟩, .tyT "$1", .buf 2, .cnt ⟨[.par 3], []⟩, .tyT "$1", .root, .comm], [(1, "$1"), (2, "$1")], [], .none⟩,
+  ⟨"iscatter_3", .call "MPI_Iscatter" [.buf 1, .cnt ⟨[.isRoot, .sizeOf 1], [.procs]⟩, .tyOf 1, .buf 2, .cnt ⟨[.sizeOf 2], []⟩, .tyOf 2, .root, .comm, .req], [], [], .none⟩,
+  ⟨"scatterv_6", .call "MPI_Scatterv" [.buf 1, .arr 2, .arr 3, .tyT "$1", .buf 4, .cnt ⟨[.par 5], []⟩, .tyT "$1", .root, .comm], [(1, "$1"), (4, "$1")], [], .none⟩,
+  ⟨"allgather_3", .call "MPI_Allgather" [.buf 1, .cnt ⟨[.par 2], []⟩, .tyT "$1", .buf 3, .cnt ⟨[.par 2], []⟩, .tyT "$2", .comm], [(1, "$1"), (3, "$2")], [], .none⟩,
+  ⟨"iallgather_2", .call "MPI_Iallgather" [.buf 1, .cnt ⟨[.sizeOf 1], []⟩, .tyOf 1, .buf 2, .cnt ⟨[.sizeOf 1], []⟩, .tyOf 2, .comm, .req], [], [], .none⟩,
+  ⟨"allgatherv_5", .call "MPI_Allgatherv" [.buf 1, .cnt ⟨[.par 2], []⟩, .tyT "$1", .buf 3, .arr 4, .arr 5, .tyT "$1", .comm], [(1, "$1"), (3, "$1")], [], .none⟩,
+  ⟨"allreduce_3", .call "MPI_Allreduce" [.buf 1, .buf 2, .cnt ⟨[.par 3], []⟩, .tyT "$2", .op (.named "$2") "$1", .comm], [(1, "$2"), (2, "$2")], [], .none⟩,
+  ⟨"allreduce_1", .call "MPI_Allreduce" [.inPlace, .buf 1, .cnt ⟨[.sizeOf 1], []⟩, .tyOf 1, .op (.elemOf 1) "$1", .comm], [], [], .none⟩,
+  ⟨"iallreduce_2", .call "MPI_Iallreduce" [.buf 1, .buf 2, .cnt ⟨[.sizeOf 2], []⟩, .tyOf 2, .op (.elemOf 2) "$1", .comm, .req], [], [(1, 2)], .none⟩,
+  ⟨"iallreduce_1", .call "MPI_Iallreduce" [.inPlace, .buf 1, .cnt ⟨[.sizeOf 1], []⟩, .tyOf 1, .op (.elemOf 1) "$1", .comm, .req], [], [], .none⟩,
+  ⟨"allreduce_2", .delegateCopyBack "$1" [.buf 1, .buf 0, .cnt ⟨[.par 2], []⟩], [(1, "$2")], [], .none⟩,
+  ⟨"sum_1", .delegate "std::plus<$1>" [.buf 1, .buf 0, .cnt ⟨[.lit 1], []⟩], [(1, "$1")], [], .none⟩,
+  ⟨"sum_2", .delegate "std::plus<$1>" [.buf 1, .cnt ⟨[.par 2], []⟩], [(1, "$1")], [], .none⟩,
+  ⟨"prod_1", .delegate "std::multiplies<$1>" [.buf 1, .buf 0, .cnt ⟨[.lit 1], []⟩], [(1, "$1")], [], .none⟩,
+  ⟨"prod_2", .delegate "std::multiplies<$1>" [.buf 1, .cnt ⟨[.par 2], []⟩], [(1, "$1")], [], .none⟩,
+  ⟨"min_1", .delegate "Min<$1>" [.buf 1, .buf 0, .cnt ⟨[.lit 1], []⟩], [(1, "$1")], [], .none⟩,
+  ⟨"min_2", .delegate "Min<$1>" [.buf 1, .cnt ⟨[.par 2], []⟩], [(1, "$1")], [], .none⟩,
+  ⟨"max_1", .delegate "Max<$1>" [.buf 1, .buf 0, .cnt ⟨[.lit 1], []⟩], [(1, "$1")], [], .none⟩,
+  ⟨"max_2", .delegate "Max<$1>" [.buf 1, .cnt ⟨[.par 2], []⟩], [(1, "$1")], [], .none⟩,
+  ⟨"rrecv_4", .probeCountResizeRecv 1, [], [], .none⟩,
+  ⟨"barrier_0", .call "MPI_Barrier" [.comm], [], [], .none⟩,
+  ⟨"ibarrier_0", .call "MPI_Ibarrier" [.comm, .req], [], [], .none⟩
+]
+end Wrap
 
 end DV.C07
